@@ -30,6 +30,7 @@ import (
 	"testing"
 	"testing/synctest"
 	"time"
+	"unsafe"
 )
 
 // Spec describes one property check.
@@ -334,8 +335,10 @@ func (c *Case) Bubble(f func(), leaked func(dump string)) {
 				return
 			case <-time.After(3 * time.Second):
 			}
-			buf := make([]byte, 4<<20)
-			full := string(buf[:runtime.Stack(buf, true)])
+			// one static buffer, sampled under watchMu: a check that measures the heap (C12)
+			// takes the same lock, so it never sees a sample in progress
+			watchMu.Lock()
+			full := unsafe.String(&watchBuf[0], runtime.Stack(watchBuf, true))
 			if p := progress.Load(); p != lastProgress {
 				lastProgress, spinning = p, map[string]int{}
 			} else {
@@ -357,6 +360,7 @@ func (c *Case) Bubble(f func(), leaked func(dump string)) {
 				c.ExitResume()
 			}
 			prev = dump
+			watchMu.Unlock()
 		}
 	}()
 	synctest.Test(c.T, func(t *testing.T) {
@@ -522,6 +526,18 @@ var progress atomic.Uint64
 
 const spinSamples = 20
 
+var (
+	watchMu  sync.Mutex
+	watchBuf = make([]byte, 4<<20)
+)
+
+// Quiesced runs f while no watchdog sample is in progress (heap measurements).
+func Quiesced(f func()) {
+	watchMu.Lock()
+	defer watchMu.Unlock()
+	f()
+}
+
 // runnableLibGoroutines maps goroutine id -> stack for the bubble's goroutines that are
 // running or runnable with a library frame on their stack.
 func runnableLibGoroutines(dump string) map[string]string {
@@ -536,7 +552,7 @@ func runnableLibGoroutines(dump string) map[string]string {
 		}
 		f := strings.Fields(head)
 		if len(f) > 1 {
-			out[f[1]] = g
+			out[strings.Clone(f[1])] = g // the dump lives in the static sample buffer
 		}
 	}
 	return out
